@@ -334,3 +334,25 @@ Example ex_heap_roundtrip :
   link_heap (zeros 96 ++ heap_image ex_heap 96 ++ [7; 7]) 96 [120] =
     Ok (5, zeros 96 ++ heap_image {| hw_strings := [100; 115; 0; 103; 0; 120; 0]; hw_dss := 16; hw_free := 1; hw_daddr := 0 |} 96 ++ [7; 7]).
 Proof. vm_compute. repeat split. Qed.
+
+(* the allocation-aware model of C07 (Model/RobustAlloc.v local_heap_load, tied by C07) is this reader followed by len():
+   one transcription of LoadLocalHeap serves C07 (allocation log), C11 (round trip) and C03 (abstraction) *)
+Lemma local_heap_load_agrees file addr O L : addr <= MaxInt64 ->
+  fst (local_heap_load file addr O L) = omap blen (load_local_heap file addr O L).
+Proof.
+  intros Ha. unfold local_heap_load, load_local_heap, read_at.
+  replace (MaxInt64 <? addr) with false by (symmetry; apply N.ltb_ge; exact Ha). cbn [orb].
+  destruct (blen file <? addr + (8 + 2 * L + O)); [reflexivity|].
+  destruct (slice file addr (addr + (8 + 2 * L + O))) as [hb| |]; cbn [obind omap fst]; try reflexivity.
+  change [72; 69; 65; 80] with sigHEAP.
+  destruct (negb (bytes_eqb (firstn 4 hb) sigHEAP)); [reflexivity|].
+  assert (NE : forall b p w, rd_field b p w <> Err).
+  { intros b p w. unfold rd_field, rd_le. destruct ((w =? 2) || (w =? 4) || (w =? 8)); cbv iota.
+    - unfold slice. destruct ((p <=? p + w) && (p + w <=? blen b)); cbn [obind]; intros X; discriminate X.
+    - intros X. discriminate X. }
+  destruct (rd_field hb 8 L) as [dsize| |] eqn:E1; [| exfalso; exact (NE _ _ _ E1) |]; cbn [obind omap fst].
+  - destruct (rd_field hb (8 + 2 * L) O) as [daddr| |] eqn:E2; [| exfalso; exact (NE _ _ _ E2) |]; cbn [obind omap fst].
+    + destruct (read_bytes_at file daddr dsize) as [[d| |] l]; reflexivity.
+    + reflexivity.
+  - destruct (rd_field hb (8 + 2 * L) O); reflexivity.
+Qed.
